@@ -200,19 +200,33 @@ let op_ps_res a =
   let (ok, o) = ps_restore_attribute ps_fenv (ps_k (ps_unhex (str a "path" "-"))) true (z_of_int !now) (ps_get i) in
   ps_pop := ps_pop_set (ps_oname i) o !ps_pop; emit (ps_state_line "res" ok i o)
 
-(* DumpModifiedAttributes over the population, the blocks evaluated on the population as configured *)
+(* FNV-1a-64 of the text the Gallina writer (C17's cw_emit_value, via PsText.ps_block_text) generates for the body of an
+   object's block of modified-attributes.conf; the harness prints the digest of the bytes the real ConfigWriter wrote *)
+let ps_fnv (bytes : n list) =
+  let h = ref 0xcbf29ce484222325L in
+  List.iter (fun b -> h := Int64.mul (Int64.logxor !h (Int64.of_int (ps_int_of_n b))) 0x100000001b3L) bytes;
+  Printf.sprintf "%016Lx" !h
+let ps_txt_of blocks i =
+  match List.find_opt (fun b -> b.ps_b_name = ps_oname i) blocks with
+  | Some b -> ps_fnv (ps_block_text b)
+  | None -> "-"
+let ps_emit_pop_txt tag ok blocks =
+  List.iteri (fun i po -> emit (ps_state_line tag ok i po.ps_p_obj ^ " txt=" ^ ps_txt_of blocks i)) !ps_pop
+
+(* DumpModifiedAttributes over the population; the file as TEXT (writer model), compiled (lexer + parser model: a syntax
+   error anywhere means nothing is evaluated), the blocks evaluated on the population as configured *)
 let op_ps_dma _ =
   match ps_pop_dump !ps_pop with
   | None -> emit "dma ok=0"
   | Some blocks ->
-    let (ok, r) = ps_pop_replay ps_fenv (z_of_int !now) blocks !ps_pop0 in
-    ps_pop := r; ps_emit_pop "dma" ok
+    let (ok, r) = ps_pop_replay_text ps_fenv (z_of_int !now) blocks !ps_pop0 in
+    ps_pop := r; ps_emit_pop_txt "dma" ok blocks
 
-(* stop/start: state file (original_attributes, version) + modified-attributes.conf *)
+(* stop/start: state file (version) + modified-attributes.conf as text *)
 let op_ps_restart _ =
-  match ps_pop_restart ps_fenv (z_of_int !now) !ps_pop !ps_pop0 with
-  | None -> emit "rst ok=0 dump-throws"
-  | Some (ok, r) -> ps_pop := r; ps_emit_pop "rst" ok
+  match ps_pop_dump !ps_pop, ps_pop_restart_text ps_fenv (z_of_int !now) !ps_pop !ps_pop0 with
+  | Some blocks, Some (ok, r) -> ps_pop := r; ps_emit_pop_txt "rst" ok blocks
+  | _, _ -> emit "rst ok=0 dump-throws"
 
 let ps_set_slot n v = if List.mem_assoc n !ps_slots then ps_slots := List.map (fun (k, x) -> if k = n then (k, v) else (k, x)) !ps_slots
   else ps_slots := !ps_slots @ [(n, v)]
@@ -399,7 +413,9 @@ let oracle_c14_case script trace =
                 fail (Printf.sprintf "restart-originals obj=%d" i);
               Hashtbl.replace cur i post) (List.rev !lines);
           ignore ok0;
-          open_mods := []
+          (* a path that is still listed after the reload stays under observation: a later restore must return the
+             configured value (the replay re-recorded it) *)
+          open_mods := List.filter (fun ((i, p), _) -> match Hashtbl.find_opt cur i with Some o -> ps_orig_mentions p o | None -> false) !open_mods
         end
       end
     | Some ("ps_cr", a) ->
